@@ -234,8 +234,64 @@ def _alarm(signum, frame):
 _WORK_FN = None
 
 
+_WORK_FRESH = False
+
+
+def run_forked(fn, arg, tmo):
+    """fn(arg) in a forked child of this process (which itself never runs fn and so keeps its module-level
+    state pristine); the result comes back pickled through a pipe; a child exceeding the timer is a hang"""
+    import pickle
+    import select
+
+    r, w = os.pipe()
+    pid = os.fork()
+    if pid == 0:
+        os.close(r)
+        try:
+            signal.signal(signal.SIGALRM, _alarm)
+            signal.setitimer(signal.ITIMER_REAL, tmo)
+            try:
+                res = fn(arg)
+            except Hang:
+                res = {"outcome": "hang"}
+            except Exception as ex:
+                res = {"outcome": "harness-error:" + type(ex).__name__, "trace": traceback.format_exc()[-800:]}
+            finally:
+                signal.setitimer(signal.ITIMER_REAL, 0)
+            data = pickle.dumps(res)
+            off = 0
+            while off < len(data):
+                off += os.write(w, data[off:off + 65536])
+        finally:
+            os._exit(0)
+    os.close(w)
+    chunks, deadline = [], time.time() + tmo + 15
+    try:
+        while True:
+            left = deadline - time.time()
+            if left <= 0 or not select.select([r], [], [], left)[0]:
+                os.kill(pid, signal.SIGKILL)
+                chunks = None
+                break
+            b = os.read(r, 1 << 20)
+            if not b:
+                break
+            chunks.append(b)
+    finally:
+        os.close(r)
+        try:
+            os.waitpid(pid, 0)
+        except ChildProcessError:
+            pass
+    if not chunks:
+        return {"outcome": "hang"}
+    return pickle.loads(b"".join(chunks))
+
+
 def _work(args):
     i, case, tmo = args
+    if _WORK_FRESH:
+        return i, run_forked(_WORK_FN, case, tmo)
     signal.signal(signal.SIGALRM, _alarm)
     signal.setitimer(signal.ITIMER_REAL, tmo)
     try:
@@ -248,11 +304,14 @@ def _work(args):
         signal.setitimer(signal.ITIMER_REAL, 0)
 
 
-def pmap(fn, cases, per_case_timeout=20.0, procs=None):
-    """run fn over cases in forked workers; a case exceeding the timer yields {'outcome': 'hang'}"""
-    global _WORK_FN
+def pmap(fn, cases, per_case_timeout=20.0, procs=None, fresh=False):
+    """run fn over cases in forked workers; a case exceeding the timer yields {'outcome': 'hang'}.
+    fresh=True: every case runs in its own newly forked process, so module-level state left behind by one case
+    (caches, memo tables, class attributes) cannot reach another and each case starts from the state of this process"""
+    global _WORK_FN, _WORK_FRESH
     procs = procs or int(os.environ.get("VERIF_PROCS", "0")) or min(12, os.cpu_count() or 4)
     _WORK_FN = fn
+    _WORK_FRESH = fresh
     jobs = [(i, c, per_case_timeout) for i, c in enumerate(cases)]
     if procs <= 1 or len(cases) < 32:
         return [_work(j)[1] for j in jobs]
@@ -379,7 +438,7 @@ class Check:
 
     # ---- correspondence streams --------------------------------------------------------------
     def run_stream(self, name, cases, impl, line=None, canon=None, oracle=None, nontrivial=None,
-                   per_case_timeout=20.0, site=None, skip=None, model_map=None, describe=None, regen=None):
+                   per_case_timeout=20.0, site=None, skip=None, model_map=None, describe=None, regen=None, fresh=False):
         """cases: list of JSON-able dicts.  impl(case) -> result dict (with 'outcome').
         line(case) -> protocol line for the driver (None: stream has no model side).
         canon(case, result) -> the line the driver should print.  oracle(case, result) -> None or
@@ -389,8 +448,8 @@ class Check:
         regen = regen or getattr(cases, "regen", None)
         if regen is not None:  # (generator(rng, nmax), nmax used): lets a counterexample be minimised by re-generation
             self.regen[name] = {"gen": regen[0], "nmax": regen[1], "impl": impl, "oracle": oracle, "skip": skip,
-                                "timeout": per_case_timeout}
-        results = pmap(impl, cases, per_case_timeout)
+                                "timeout": per_case_timeout, "fresh": fresh}
+        results = pmap(impl, cases, per_case_timeout, fresh=fresh)
         keep = []
         for i, (c, r) in enumerate(zip(cases, results)):
             if r is None or (isinstance(r, dict) and str(r.get("outcome", "")).startswith("harness-error")):
@@ -474,7 +533,7 @@ class Check:
             if not cases:
                 continue
             try:
-                results = pmap(g["impl"], cases, g["timeout"])
+                results = pmap(g["impl"], cases, g["timeout"], fresh=g.get("fresh", False))
             except Exception:
                 continue
             for c, r in zip(cases, results):
@@ -647,18 +706,62 @@ class Gen(list):
 
 
 # ------------------------------------------------------------------ containers and prior use
+def _bits(case, shift, mod):
+    """independent pseudo-random choices derived from the case itself (replayable, no extra fields needed)"""
+    return (int(case_hash({k: v for k, v in case.items() if k != "X"} | {"x0": str(case.get("X", ""))[:200]}), 16) >> shift) % mod
+
+
 def wrap_container(case, a):
     """the data as ndarray or DataFrame, chosen by the case (explicit "container" or the parity of n + p)"""
     import pandas as pd
 
-    kind = case.get("container") or ("frame" if (case.get("n", 0) + case.get("p", 1)) % 2 else "ndarray")
+    kind = case.get("container") or ("frame" if _bits(case, 0, 2) else "ndarray")
     return pd.DataFrame(a) if kind == "frame" else a
+
+
+def fit_for(det, case, X, reps=4):
+    """fit the detector in one of three ways and return (the data object to predict on, rows seen by fit):
+    same         fit on the data itself;
+    other-length fit on a series of different length (fitted thresholds / penalties must be the ones used);
+    inplace      fit on an object holding other values, then overwrite that same object in place with the data
+                 (a result cached under the identity of the fitted object would be stale)"""
+    import numpy as np
+    import pandas as pd
+
+    mode = case.get("fitmode") or ["same", "same", "other-length", "inplace"][_bits(case, 4, 4)]
+    if mode == "other-length":
+        Xf = np.vstack([X, X[::-1] * 0.5 + 1.0] * reps)  # 2*reps x the rows: fitted thresholds / penalties differ markedly
+        det.fit(wrap_container(case, Xf))
+        return wrap_container(case, X), len(Xf)
+    if mode == "inplace":
+        D = wrap_container(case, (X[::-1] * 2.0 + 1.0).copy())
+        det.fit(D)
+        if isinstance(D, pd.DataFrame):
+            D.iloc[:, :] = X
+        else:
+            D[...] = X
+        return D, len(X)
+    det.fit(wrap_container(case, X))
+    return wrap_container(case, X), len(X)
+
+
+def borderline_scale(case, scores, default_thr):
+    """a threshold scale that puts the fitted threshold a relative 1e-6 above or below one of the positive
+    candidate scores (chosen by the case), so that a threshold that is off by any visible amount flips a decision;
+    None when the case does not ask for it or there is nothing to aim at"""
+    want = case.get("borderline", _bits(case, 8, 2) == 0)
+    pos = sorted({float(v) for v in scores if v > 1e-9})
+    if not want or not pos or not default_thr > 0:
+        return None
+    v = pos[_bits(case, 12, 64) % len(pos)]
+    side = 1 if _bits(case, 20, 2) else -1
+    return v * (1 + side * 1e-6) / default_thr
 
 
 def prior_use(det, case, X):
     """before the judged calls, use the fitted detector on OTHER data with the same shape and index
     (a result cached under the index of the previous call would then be returned for the wrong data)"""
-    kind = case.get("prior", [None, "predict", "scores"][(case.get("n", 0) // 2) % 3])
+    kind = case.get("prior", [None, "predict", "scores"][_bits(case, 24, 3)])
     if kind:
         X0 = wrap_container(case, X[::-1] * 2.0 + 1.0)
         try:
